@@ -11,7 +11,7 @@ def set_matching_sections(ds: xr.Dataset, matching_sections: dict[str, list[slic
     ds.attrs["_matching_sections"] = yaml.dump(matching_sections)
 
 
-def validate_no_overlapping_sections(sections: dict[str, list[slice]]):
+def validate_no_overlapping_sections(sections: dict[str, list[slice]], x=None):
     """Check if the sections do not overlap.
 
     Parameters
@@ -34,6 +34,18 @@ def validate_no_overlapping_sections(sections: dict[str, list[slice]]):
     for k, v in sections.items():
         for vi in v:
             all_stretches.append(vi)
+
+    if x is not None:
+        # A location may only be part of a single stretch, and each stretch
+        # should select at least one location.
+        x_indices = x.astype(int) * 0 + np.arange(x.size)
+        ix_list = [x_indices.sel(x=stretch).values for stretch in all_stretches]
+        assert all(ix.size > 0 for ix in ix_list), "Sections contains empty stretches"
+        ix_flat = np.concatenate(ix_list) if ix_list else np.array([], dtype=int)
+        assert (
+            np.unique(ix_flat).size == ix_flat.size
+        ), "Sections contains overlapping stretches"
+        return
 
     # Check for overlapping slices
     all_start_stop = [[stretch.start, stretch.stop] for stretch in all_stretches]
@@ -106,7 +118,7 @@ def validate_sections(ds: xr.Dataset, sections: dict[str, list[slice]]):
         If the sections are not valid.
     """
     validate_sections_definition(sections=sections)
-    validate_no_overlapping_sections(sections=sections)
+    validate_no_overlapping_sections(sections=sections, x=ds.x)
 
     for k, v in sections.items():
         assert k in ds.data_vars, (
